@@ -1,8 +1,9 @@
 #!/bin/bash
-# usage: lib/run_all.sh <quick|thorough> [seed]   — runs every registered check, prints one summary line per check
+# usage: lib/run_all.sh <quick|thorough> [seed] ["C01 C02 ..."]   — runs every (or the listed) registered check, one summary line each
 tier="${1:-quick}"; seed="${2:-1}"
+props="${3:-C01 C02 C03 C04 C05 C06 C07 C08 C09 C10 C11 C12 C13 C14 C15 C16 C17 C18 C19 C20}"
 cd "$(dirname "$0")/.."
-for p in C01 C02 C03 C04 C05 C06 C07 C08 C09 C10 C11 C12 C13 C14 C15 C16 C17 C18 C19 C20; do
+for p in $props; do
   t0=$(date +%s)
   VERIF_SEED=$seed ./check $p $tier > work/runall-$p.out 2>&1; rc=$?
   t1=$(date +%s)
